@@ -91,7 +91,7 @@ def gen(rng, tier, ctx):
     second = {"at": rng.randrange(len(ops) + 1), "form": rng.choice(["ctor", "replace", "assign"])} if rng.random() < 0.3 else None
     return {"kind": kind, "n_other": n_other, "start": start, "start_form": rng.choice(["ctor", "assign", "append"]), "ops": ops,
             "second_owner": second,
-            "twins": rng.random() < 0.3, "odd": rng.random() < 0.2,
+            "twins": rng.random() < 0.3, "odd": rng.random() < 0.2, "odd_cls": rng.choice(["Bag", "Crate"]),
             # the field is declared on Person / Org, the owner may be an instance of a subclass
             "owner_cls": rng.choice(["Person", "Employee", "Manager"] if kind == "list" else ["Org", "Dept", "Org"])}
 
@@ -110,6 +110,8 @@ def witnesses():
                                                       "ops": [["append", [1], 0, "list"], ["assign_new", [2], 0, "list"]]},
         "first-assignment-adopts-foreign-container-set": {"kind": "set", "n_other": 3, "start": [0], "start_form": "ctor", "second_owner": {"at": 0, "form": "replace"},
                                                           "ops": [["add", [1], 0, "list"]]},
+        "first-assignment-unhashable-elements": {"kind": "list", "n_other": 3, "start": [0, 1], "start_form": "ctor", "odd": True, "odd_cls": "Crate",
+                                                 "ops": [["append", [2], 0, "list"]]},
         "set-ior-erases-field": {"kind": "set", "n_other": 3, "start": [0], "start_form": "ctor", "ops": [["ior", [1], 0]]},
     }
 
@@ -269,7 +271,10 @@ def run(spec, ctx):
         # twins: value-equal but distinct instances (names repeat)
         odd = bool(spec.get("odd")) and not twins
         # odd: the elements are falsy (no members) and iterable organisations
-        others = [(om.VOrg(f"t{i % 2}") if twins else (om.Bag if odd else om.Org)(f"o{i}")) for i in range(spec["n_other"])]
+        # ... or not hashable (a plain @dataclass with a generated __eq__)
+        odd_cls = om.ODD_CLASSES[spec.get("odd_cls", "Bag")]
+        C["odd_class:" + odd_cls.__name__] += odd
+        others = [(om.VOrg(f"t{i % 2}") if twins else (odd_cls if odd else om.Org)(f"o{i}")) for i in range(spec["n_other"])]
         field, owner_name = "member_of", "p0"
     else:
         others = [(om.VPerson(f"t{i % 2}") if twins else om.Person(f"q{i}")) for i in range(spec["n_other"])]
@@ -287,15 +292,19 @@ def run(spec, ctx):
     plain_owner = om.ALL_CLASSES.get(spec.get("owner_cls", "Person" if kind == "list" else "Org"))
     C["owner_class:" + plain_owner.__name__] += 1
     Owner = (om.VPerson if twins else plain_owner) if kind == "list" else (om.VOrg if twins else (om.Bag if odd else plain_owner))
-    if spec["start_form"] == "ctor":
-        owner = Owner(owner_name, **{field: mk(start)})
-    else:
-        owner = Owner(owner_name)
-        if spec["start_form"] == "assign":
-            setattr(owner, field, mk(start))
+    try:
+        if spec["start_form"] == "ctor":
+            owner = Owner(owner_name, **{field: mk(start)})
         else:
-            for x in start:
-                (getattr(owner, field).append if kind == "list" else getattr(owner, field).add)(x)
+            owner = Owner(owner_name)
+            if spec["start_form"] == "assign":
+                setattr(owner, field, mk(start))
+            else:
+                for x in start:
+                    (getattr(owner, field).append if kind == "list" else getattr(owner, field).add)(x)
+    except Exception as e:
+        return {"status": "fail", "kind": "write-form", "key": None,
+                "detail": f"start({spec['start_form']}) with {type(others[0]).__name__} elements raised {type(e).__name__}: {e}"[:250]}
     named[owner_name] = owner
     name_of = {id(o): n for n, o in named.items()}
     problems = []
